@@ -409,6 +409,24 @@ func genC07(g *gen) {
 	g.kernelMatrix(cmpOps, true, []string{"safe", "same", "unsafe", "reuse-bool", "reuse-same"})
 	g.scalarTensorMatrix([]string{"sub", "mul", "maxb"}, []string{"f64", "i32", "c64", "u8", "i64"}, []string{"safe", "unsafe", "reuse", "incr", "reuse=scalar"})
 	g.orderMismatchMatrix()
+	// what a refused call leaves behind: an operation refused for its destination (wrong size / wrong type) is
+	// followed by operations in every mode, products with destinations included - the option record of the refused
+	// call goes back to the library's pool and must not be seen by the calls that follow
+	for _, dt := range []string{"f64", "f32"} {
+		for _, bad := range []string{fmt.Sprintf("new %s 3 C", dt), fmt.Sprintf("new %s 2,3 C", dt), "new i32 2,2 C"} {
+			for _, refusedMode := range []string{"reuse", "incr"} {
+				for _, op := range []string{"add", "mul"} {
+					g.emit("vset=2", fmt.Sprintf("new %s 2,2 C", dt), fmt.Sprintf("new %s 2,2 C", dt), bad,
+						fmt.Sprintf("bin %s fn $0 $1 %s=$2", op, refusedMode), "dump $2",
+						fmt.Sprintf("new %s 2,2 C", dt), "la mm fn $0 $1 incr=$4", "dump $4", "dump $0", "dump $1",
+						fmt.Sprintf("new %s 2 C", dt), fmt.Sprintf("new %s 2 C", dt), "la mv fn $0 $6 incr=$7", "dump $7",
+						fmt.Sprintf("new %s 2,2 C", dt), "la outer fn $6 $6 incr=$9", "dump $9",
+						fmt.Sprintf("new %s 2,2 C", dt), "bin sub fn $0 $1 incr=$11", "dump $11",
+						fmt.Sprintf("new %s 2,2 C", dt), "bin sub fn $0 $1 reuse=$13", "dump $13", "bin mul fn $0 $1", "dump $15", "dump $0", "dump $1")
+				}
+			}
+		}
+	}
 	g.scalarTensorMatrix([]string{"lt", "gte"}, []string{"f64", "i32", "u8", "i64"}, []string{"same", "unsafe", "reuse-same"})
 	for _, op := range []string{"minb", "maxb"} {
 		for _, mode := range []string{"safe", "unsafe", "reuse", "reuse=a", "reuse=b"} {
